@@ -313,3 +313,35 @@ def gate_rule(chk, prog, roles, rule="GATE"):
                         bad.get(id(c)))
     chk.floor("buffer write sites in emitters", n, 4)
     return n
+
+
+def encoder_idempotence_rule(chk, prog, roles, rule="IDEM"):
+    """chunk fitting assembles the same record twice (once to measure, once after padding): every store the
+    encoder makes into the per-line record must be idempotent (F = c, F &= c, F |= c with a constant c)"""
+    lib = prog.lib_functions()
+    enc = sorted(EFF.reachable(roles.g, [roles.encode]) & set(lib))
+    n = 0
+    ce = ConstEval(prog)
+    for fn in enc:
+        f = lib[fn]
+        for m in walk(prog.body(f)):
+            k = m.get("kind")
+            tgt = None
+            if k in ("BinaryOperator", "CompoundAssignOperator") and m.get("opcode", "").endswith("=") and m.get("opcode") not in ("==", "!=", "<=", ">="):
+                tgt = strip(kids(m)[0])
+            elif k == "UnaryOperator" and m.get("opcode") in ("++", "--"):
+                tgt = strip(kids(m)[0])
+            if tgt is None or tgt.get("kind") != "MemberExpr":
+                continue
+            owner, fld = EFF.owner_field(tgt)
+            if owner not in ("instr", "prefix", "operand", "keywords"):
+                continue
+            n += 1
+            ok = False
+            if k != "UnaryOperator":
+                c = ce.try_eval(kids(m)[1])
+                ok = c is not None and m.get("opcode") in ("=", "&=", "|=")
+            chk.require(ok, rule, "%s/%s/%s" % (rule, fn, expr_str(tgt)), loc_str(m),
+                        "a store of the encoder into the per-line record is idempotent (the record is assembled again after padding)", expr_str(m))
+    chk.floor("encoder stores into the record", n, 2)
+    return n
